@@ -62,6 +62,22 @@ Definition process_pong (supported : list N) (c : cache) (e : event) : cache :=
 Definition process_event (supported : list N) (c : cache) (e : event) : cache :=
   if ev_pong e then process_pong supported c e else process_ping supported c e.
 
+(* PortalProtocol.AddEnr: table.addFoundNode(n, true); only when that returns true (the node was not yet in the table and
+   found room) is its radius entry set to MaxDistance; a node that is already in the table (same record or a newer one,
+   which only replaces the stored record) keeps the radius it reported *)
+Definition max_distance : N := 2 ^ 256 - 1.
+Definition process_add_enr (c : cache) (id : N) (added : bool) : cache :=
+  if added then cache_set c id (RGood max_distance) else c.
+
+(* handlePing: payload type of the PONG and the radius it announces.  [decodes]: the ping payload decodes with the decoder of
+   its type; [own_radius]: p.storage.Radius() at the time of the request *)
+Definition pong_of_ping (supported : list N) (ptype : N) (decodes : bool) (own_radius : N) : N * option N :=
+  if negb (existsb (N.eqb ptype) supported) then (K_ext_Error, None)      (* ErrorNotSupported *)
+  else if carries_radius ptype then
+    if decodes then (ptype, Some own_radius)                             (* handleClientInfo / handleBasicRadius / handleHistoryRadius *)
+    else (K_ext_Error, None)                                             (* ErrorDecodePayload *)
+  else (ptype, None).                                                    (* pingext.Error: createPong(ping.PayloadType, system error) *)
+
 Definition run_events (supported : list N) (evs : list event) (c : cache) : cache := fold_left (process_event supported) evs c.
 
 (* ---------------------------------------------------------------- gossip *)
